@@ -6,6 +6,13 @@ from typing import Any
 from .values import ADict, AList, ASet, ClassInfo, EnumInt, ExtObj, ExtRef, FuncRef, GenObj, Msg, MsgClass, Obj, SStr, Unknown
 
 
+ONEOF_FIELDS: dict[str, frozenset] = {}  # message type -> names of fields that belong to a oneof (filled by Interp)
+
+
+def _is_default_scalar(x: Any) -> bool:
+    return x is None or (isinstance(x, (bool, int, float, str, bytes)) and not x)
+
+
 def freeze(v: Any, seen: dict | None = None) -> Any:
     if seen is None:
         seen = {}
@@ -38,7 +45,23 @@ def freeze(v: Any, seen: dict | None = None) -> Any:
     if isinstance(v, ASet):
         return ("set", tuple(sorted((freeze(x, seen) for x in v.items), key=repr)))
     if isinstance(v, Msg):
-        return ("msg", v.mtype, tuple((k, freeze(x, seen)) for k, x in sorted(v.fields.items()) if not isinstance(x, Msg) or k in v.present))
+        # wire-faithful: a proto3 scalar that holds its default value is not serialised unless it belongs to a oneof
+        # (members of a oneof have presence); sub-messages count when present; empty repeated/map fields do not exist
+        oneof = ONEOF_FIELDS.get(v.mtype, ())
+        items = []
+        for k, x in sorted(v.fields.items()):
+            if isinstance(x, Msg):
+                if k in v.present:
+                    items.append((k, freeze(x, seen)))
+            elif isinstance(x, AList):
+                if x.items:
+                    items.append((k, freeze(x, seen)))
+            elif isinstance(x, ADict):
+                if x.pairs:
+                    items.append((k, freeze(x, seen)))
+            elif (k in oneof and k in v.present) or not _is_default_scalar(x):
+                items.append((k, freeze(x, seen)))
+        return ("msg", v.mtype, tuple(items))
     if isinstance(v, ClassInfo):
         return ("class", v.qualname)
     if isinstance(v, (ExtRef, MsgClass)):
